@@ -131,7 +131,63 @@ func genOrcSpec(rng *RNG, forC14 bool) orcSpec {
 				StartBase: f.End + uint64(1+rng.Intn(4)), Interval: uint64(2*s.MaxNonce) + uint64(rng.Intn(3))})
 		}
 	}
+	// feeder ids are positions in the feeder list, token ids positions in the token list: nothing ties the two
+	// (Params.Validate only asks that the feeders of ONE token follow each other in time). Two of three specs get
+	// a layout in which they have drifted apart — the per-token chains (first feeder, successor) merged in a
+	// random order — so that every look-up "feeder -> its token -> decimals / rule / round ids" is exercised on
+	// params where feeder i does not price token i (what a chain looks like after feeders were stopped and
+	// resumed and tokens added in between).
+	if rng.Chance(2, 3) {
+		s.shuffleFeederLayout(rng)
+	}
 	return s
+}
+
+// shuffleFeederLayout re-orders s.Feeders: a random merge of the per-token chains that keeps the order inside
+// each chain (the only order Params.Validate prescribes).
+func (s *orcSpec) shuffleFeederLayout(rng *RNG) {
+	chains := map[uint64][]orcFeeder{}
+	var toks []uint64
+	for _, f := range s.Feeders {
+		if _, ok := chains[f.Token]; !ok {
+			toks = append(toks, f.Token)
+		}
+		chains[f.Token] = append(chains[f.Token], f)
+	}
+	var out []orcFeeder
+	for len(toks) > 0 {
+		i := rng.Intn(len(toks))
+		t := toks[i]
+		out = append(out, chains[t][0])
+		chains[t] = chains[t][1:]
+		if len(chains[t]) == 0 {
+			toks = append(toks[:i], toks[i+1:]...)
+		}
+	}
+	s.Feeders = out
+}
+
+// drifted: some feeder's token id, read as a FEEDER id, names a feeder of another token (or none): the
+// layouts on which "token of feeder f" and "token of feeder (token id of f)" differ.
+func (s *orcSpec) drifted() bool {
+	for _, f := range s.Feeders {
+		if int(f.Token) > len(s.Feeders) || s.Feeders[f.Token-1].Token != f.Token {
+			return true
+		}
+	}
+	return false
+}
+
+// driftedDecimals: … and the token reached that way has other decimals (the look-ups disagree observably).
+func (s *orcSpec) driftedDecimals() bool {
+	for _, f := range s.Feeders {
+		if int(f.Token) <= len(s.Feeders) {
+			if g := s.Feeders[f.Token-1]; s.TokenDec[g.Token-1] != s.TokenDec[f.Token-1] {
+				return true
+			}
+		}
+	}
+	return false
 }
 
 // ---- per-round bookkeeping of the harness (its own log of accepted submissions)
@@ -253,7 +309,7 @@ func (d *orcDriver) mutate(m *orcMsg, t *orcTx) string {
 	s := d.spec
 	now := d.c.Header.Time.Unix()
 	kinds := []string{"based", "nonce-stale", "nonce-skip", "nonce-big", "stranger", "decimal", "ts-future", "ts-edge", "ts-bad", "ts-empty",
-		"feeder", "no-src", "no-price", "many-det", "dup-det", "ns-detid", "ds-nodet", "oversize", "src-id", "src-count"}
+		"feeder", "no-src", "no-price", "many-det", "dup-det", "ns-detid", "ds-nodet", "oversize", "src-id", "src-count", "decimal-other"}
 	k := kinds[d.rng.Intn(len(kinds))]
 	first := func() *orcPrice {
 		if len(m.Srcs) > 0 && len(m.Srcs[0].Prices) > 0 {
@@ -280,6 +336,13 @@ func (d *orcDriver) mutate(m *orcMsg, t *orcTx) string {
 	case "decimal":
 		if p := first(); p != nil {
 			p.Dec++
+		}
+	case "decimal-other":
+		// the whole submission scaled with the decimals of ANOTHER configured token (a feeder that reports in
+		// the wrong unit, or a look-up that reaches the wrong token); own decimals + 1 when all tokens agree
+		if int(m.Feeder) >= 1 && int(m.Feeder) <= len(s.Feeders) {
+			own := s.TokenDec[s.Feeders[m.Feeder-1].Token-1]
+			m.setDecimals(s.otherDecimals(own, d.rng))
 		}
 	case "ts-future":
 		if p := first(); p != nil {
@@ -348,6 +411,31 @@ func (d *orcDriver) mutate(m *orcMsg, t *orcTx) string {
 		}
 	}
 	return k
+}
+
+// setDecimals rewrites the decimals of every price of the message.
+func (m *orcMsg) setDecimals(dec int32) {
+	for i := range m.Srcs {
+		ps := append([]orcPrice{}, m.Srcs[i].Prices...)
+		for j := range ps {
+			ps[j].Dec = dec
+		}
+		m.Srcs[i].Prices = ps
+	}
+}
+
+// otherDecimals: the decimals of a configured token that differ from own (random among them), or own+1.
+func (s *orcSpec) otherDecimals(own int32, rng *RNG) int32 {
+	var cands []int32
+	for _, x := range s.TokenDec {
+		if x != own {
+			cands = append(cands, x)
+		}
+	}
+	if len(cands) == 0 {
+		return own + 1
+	}
+	return cands[rng.Intn(len(cands))]
 }
 
 // newRound refreshes the per-round pools when feeder fi opens a round at base b
